@@ -40,6 +40,8 @@ def run(chk: Check) -> None:
     run_late_blockers_surface(chk, ix)
     run_snapshot_last(chk, ix)
     run_sqlite_failures_are_handled_ones(chk, ix)
+    run_data_record_tied_to_meta(chk, ix)
+    run_link_time_stamp_resolution(chk, ix)
 
     # ---------------- R04.1
     r1 = chk.rule("R04.1", "file store publishes atomically: write to a fresh temporary, os.replace onto the final name, OSError => return False; no other writer of cache records", floor=3)
@@ -734,3 +736,53 @@ def run_sqlite_failures_are_handled_ones(chk: Check, ix) -> None:
                 r11.violation(key, m.loc(handled), "the handler neither returns False nor raises an OSError: the failure is swallowed (the caller believes the record was stored / removed) or re-raised as a type the callers do not handle")
     if n < 2:
         raise AnalysisError(f"SqliteMetadataStore: {n} modifying statements found in interface methods (expected write and remove)")
+
+
+def run_data_record_tied_to_meta(chk: Check, ix) -> None:
+    """R04.12: no meta record is accepted without comparing the time stamp of the data record it describes."""
+    from .c02 import analyse_gates, has_rejecting_polarity
+    r12 = chk.rule("R04.12", "a module's meta and data records are written separately; `CacheMeta.data_mtime` is the only thing that ties them together, so a run killed between the two writes leaves a new data record next to an old meta. build.validate_meta rejects such a pair by comparing the data record's time stamp with meta.data_mtime; that rejecting test lies on every CFG path from the entry to *each* accepting return (also the hash-match branch that rewrites the meta, and the quickstart shortcut), unless the test of the documented bypass (`skip_cache_mtime_checks`) that encloses it dominates the return instead. This is the R02.1 query for the field `data_mtime`, here for kill points", floor=3)
+    vm = ix.func("mypy.build.validate_meta")
+    g, accepts, gates, aliases = analyse_gates(vm, {"meta"})
+    if len(accepts) < 3:
+        raise AnalysisError("validate_meta: accepting returns not found")
+    dm = [t for t, lab, fs in gates if "data_mtime" in fs and has_rejecting_polarity(t.exprs[0], "data_mtime", {"meta"}, aliases)]
+    # a conjunct next to the comparison would let some mismatches through: the gate is the bare comparison
+    weakened = [t for t in dm if not isinstance(t.exprs[0], ast.Compare)]
+    dm = [t for t in dm if isinstance(t.exprs[0], ast.Compare)]
+    if not dm and not weakened:
+        raise AnalysisError("validate_meta: no rejecting comparison with meta.data_mtime found")
+    bypass = [n for n in g.nodes if n.kind == "test" and "skip_cache_mtime_checks" in norm(n.exprs[0])]
+    for a in accepts:
+        tag = "; ".join(norm(c)[:40] for c in guard_chain(vm, a.stmt)[0]) or "final"
+        key = f"validate_meta: data_mtime compared before accept [{tag}]"
+        ok = any(g.must_pass(g.entry, [a], [t], labels_excluded=("exc",)) for t in dm)
+        if not ok and bypass and dm:
+            # the gate sits under `if not <skip_cache_mtime_checks>`: then that test must dominate the return instead
+            ok = any(g.must_pass(g.entry, [a], [b], labels_excluded=("exc",)) for b in bypass)
+        if ok:
+            r12.ok(key, vm.loc(a.stmt))
+        else:
+            r12.violation(key, vm.loc(a.stmt), "this return accepts the meta record on a path that has not compared the data record's time stamp with meta.data_mtime: after a run killed between the data write and the meta write, a source reverted to its old contents (hash matches, mtime differs) makes the old meta valid again and the new data record is loaded as the module's tree")
+
+
+def run_link_time_stamp_resolution(chk: Check, ix) -> None:
+    """R04.13: the time stamp that ties a data record to its meta is not coarsened before it is compared."""
+    r13 = chk.rule("R04.13", "validate_meta trusts a data record when `manager.getmtime(meta.data_file) == meta.data_mtime` (R04.12), and write_cache stores `manager.getmtime(data_file)` in the meta. Both stores keep sub-second time stamps (os.path.getmtime / a REAL column). BuildManager.getmtime must hand that value on unchanged: a truncation (`int(...)`) makes two data records written in the same second indistinguishable, so the record of a killed run that started in the same second as the previous one validates against the old meta", floor=1)
+    bm = ix.cls("mypy.build.BuildManager")
+    f = bm.methods.get("getmtime")
+    if f is None:
+        raise AnalysisError("BuildManager.getmtime not found")
+    n = 0
+    for r in ast.walk(f.node):
+        if not (isinstance(r, ast.Return) and r.value is not None and any(isinstance(c, ast.Call) and call_name(c) == "getmtime" for c in ast.walk(r.value))):
+            continue
+        n += 1
+        key = "BuildManager.getmtime: the store's time stamp is returned at full resolution"
+        coarse = [c for c in ast.walk(r.value) if isinstance(c, ast.Call) and isinstance(c.func, ast.Name) and c.func.id in ("int", "round", "floor", "trunc")]
+        if not coarse:
+            r13.ok(key, f.loc(r))
+        else:
+            r13.violation(key, f.loc(r), f"`{norm(r.value)}` drops the sub-second part: runs 1 and 2 within one second (run 2 killed after committing a's new data record), then the source reverted: the warm run accepts old meta + new data and misses `c.py:2: error: Incompatible types in assignment`, with both stores")
+    if n < 1:
+        raise AnalysisError("BuildManager.getmtime: no return of the store's getmtime found")
